@@ -4,7 +4,8 @@
 (* POSIX.1-2024 XSH (open, close, dup, dup2 / fcntl F_DUPFD, pipe, read,   *)
 (* write, lseek, fcntl F_GETFD / F_SETFD / F_GETFL / F_SETFL(O_NONBLOCK),  *)
 (* fstat, fstatat, umask, chdir, getcwd, opendir/readdir, sigaction,       *)
-(* sigprocmask, kill to self) and from the doc comments of the system      *)
+(* sigprocmask, sigpending, kill to self, fork, _exit, waitpid) and from    *)
+(* the doc comments of the system                                          *)
 (* traits in yash-env/src/system/*.rs where those deliberately differ from *)
 (* the system call (Close::close returns Ok for a closed descriptor).      *)
 (* It is NOT a transcription of yash-env/src/system/virtual.rs.            *)
@@ -77,6 +78,14 @@ FreeOfd == [t |-> "free", path |-> <<>>, pi |-> -1, r |-> FALSE, w |-> FALSE,
 StdOfd  == [FreeOfd EXCEPT !.t = "std", !.r = TRUE, !.w = TRUE]
 ClosedFd == [o |-> 0, cx |-> FALSE]
 
+\* The per-process part of the state of the (at most one) child process
+\* created by fork: st is "none" (no child), "run", "exited" (a zombie with
+\* exit status code) or "signaled" (a zombie killed by signal sig).  The file
+\* tree, the open file descriptions and the pipes are shared with the parent.
+NoKid == [ st |-> "none", code |-> 0, sig |-> "",
+           fds |-> [x \in FdRange |-> ClosedFd], cwd |-> <<>>, lim |-> -1, um |-> 0,
+           disp |-> [s \in AllSigs |-> "D"], mask |-> {}, pend |-> {}, caught |-> {} ]
+
 Init0 == [ node   |-> Tree0,
            fds    |-> [x \in FdRange |-> IF x <= 2 THEN [o |-> x + 1, cx |-> FALSE] ELSE ClosedFd],
            ofd    |-> [i \in OfdIds |-> IF i <= 3 THEN StdOfd ELSE FreeOfd],
@@ -88,7 +97,8 @@ Init0 == [ node   |-> Tree0,
            mask   |-> {},
            pend   |-> {},
            caught |-> {},
-           alive  |-> TRUE ]
+           alive  |-> TRUE,
+           kid    |-> NoKid ]
 
 ---------------------------------------------------------------------------
 (* Results: one uniform record shape, so that every field is mono-typed    *)
@@ -190,8 +200,12 @@ Writers(St, q) == \E i \in LiveOfds(St) : IsPipeOfd(St, St.ofd[i]) /\ PipeOf(St.
 \* descriptor is gone; "when all file descriptors associated with a pipe or
 \* FIFO special file are closed, any data remaining in the pipe or FIFO
 \* shall be discarded" (XSH close).
+\* the open file descriptions the other process (the child while the parent
+\* runs, the parent while the child runs: see Swap) holds
+KidLive(St) == IF St.kid.st = "run" THEN {St.kid.fds[x].o : x \in FdRange} ELSE {}
+
 GC(St) ==
-  LET live == {St.fds[x].o : x \in FdRange} \ {0}
+  LET live == ({St.fds[x].o : x \in FdRange} \cup KidLive(St)) \ {0}
       ofd2 == [i \in OfdIds |-> IF i \in live THEN St.ofd[i] ELSE FreeOfd]
       St2  == [St EXCEPT !.ofd = ofd2]
       pipe2 == [q \in PipeIds |-> IF Readers(St2, q) \/ Writers(St2, q) THEN St.pipe[q] ELSE <<>>]
@@ -505,6 +519,81 @@ ApKill(St, c) ==
 \* CaughtSignals::caught_signals: returns and clears the caught signals
 ApCaught(St, c) == Out(RSigs(St.caught), [St EXCEPT !.caught = {}])
 
+\* sigpending(): the signals that are blocked and pending
+ApPending(St, c) == Out(RSigs(St.pend), St)
+
+---------------------------------------------------------------------------
+(* fork, _exit, waitpid (XSH fork, _Exit, wait).  One child at a time.  The *)
+(* child is "a new process ... an exact copy of the calling process except *)
+(* ...": its own process ID; "the child process shall have its own copy of *)
+(* the parent's file descriptors, each [referring] to the same open file   *)
+(* description"; "the set of signals pending for the child process shall   *)
+(* be initialized to the empty set"; signal actions, signal mask, file     *)
+(* mode creation mask, working directory and resource limits are among     *)
+(* the attributes that are not listed as exceptions, hence inherited.  The  *)
+(* parent's state does not change.                                         *)
+(* CaughtSignals (a list in the memory of the process, not kernel state)   *)
+(* is copied by a real fork with the rest of the memory; the shell has     *)
+(* always collected it before it forks: a fork with uncollected caught     *)
+(* signals is not predicted.                                               *)
+
+ApFork(St, c) ==
+  IF St.kid.st # "none" THEN Out(RUndef("one child at a time"), St)
+  ELSE IF St.caught # {} THEN Out(RUndef("fork with uncollected caught signals"), St)
+  ELSE Out(ROk, [St EXCEPT !.kid = [NoKid EXCEPT !.st = "run", !.fds = St.fds, !.cwd = St.cwd, !.lim = St.lim,
+                                                 !.um = St.um, !.disp = St.disp, !.mask = St.mask]])
+
+\* Exchanges the roles of the two processes: the per-process fields of the
+\* child become the current ones and the parent's are parked in kid (with
+\* st = "run": the parent keeps its descriptors, see KidLive), so that every
+\* Ap* operator applies unchanged to a call made by the child.
+Swap(St) ==
+  [St EXCEPT !.fds = St.kid.fds, !.cwd = St.kid.cwd, !.lim = St.kid.lim, !.um = St.kid.um, !.disp = St.kid.disp,
+             !.mask = St.kid.mask, !.pend = St.kid.pend, !.caught = St.kid.caught,
+             !.kid = [St.kid EXCEPT !.fds = St.fds, !.cwd = St.cwd, !.lim = St.lim, !.um = St.um, !.disp = St.disp,
+                                    !.mask = St.mask, !.pend = St.pend, !.caught = St.caught]]
+
+\* The child (current in the swapped state Sw) terminates: "all of the file
+\* descriptors ... open in the calling process shall be closed"; it becomes
+\* a zombie until the parent waits for it; "a SIGCHLD shall be sent to the
+\* parent process".  Returns [und, s] like Generate, s with the parent current.
+KidGone(Sw, st, code, sig) ==
+  LET closed == GC([Sw EXCEPT !.fds = [x \in FdRange |-> ClosedFd]])
+      back   == [Swap(closed) EXCEPT !.alive = TRUE, !.kid.st = st, !.kid.code = code, !.kid.sig = sig]
+      g      == Generate(back, "CHLD")
+  IN [und |-> g.und, s |-> g.s]
+
+RECURSIVE Apply(_, _)
+
+\* [op |-> "kid", c |-> call]: the call is made by the child; [op |-> "exit",
+\* n |-> status] is _exit(n).  With SIGCHLD ignored explicitly no zombie is
+\* left (XSI): not predicted.
+ApKid(St, c) ==
+  IF St.kid.st # "run" THEN Out(RUndef("no running child"), St)
+  ELSE IF c.c.op \in {"fork", "kid", "wait"} THEN Out(RUndef("grandchildren are not modelled"), St)
+  ELSE LET Sw == Swap(St) IN
+    IF c.c.op = "exit" THEN
+      LET t == KidGone(Sw, "exited", c.c.n, "") IN
+      IF St.disp["CHLD"] = "I" THEN Out(RUndef("SIGCHLD ignored: no zombie"), St)
+      ELSE IF t.und THEN Out(RUndef("blocked ignored signal"), St)
+      ELSE Out(R("exited", c.c.n, "", <<>>), t.s)
+    ELSE LET a == Apply(Sw, c.c) IN
+      IF a.r.k = "undef" THEN Out(a.r, St)
+      ELSE IF ~a.s.alive THEN
+        LET t == KidGone(a.s, "signaled", 0, a.r.s) IN
+        IF St.disp["CHLD"] = "I" THEN Out(RUndef("SIGCHLD ignored: no zombie"), St)
+        ELSE IF t.und THEN Out(RUndef("blocked ignored signal"), St)
+        ELSE Out(a.r, t.s)
+      ELSE Out(a.r, Swap(a.s))
+
+\* Wait::wait = waitpid(child, WNOHANG | ...): the changed state of the child,
+\* reported once (the zombie is then gone)
+ApWait(St, c) ==
+  CASE St.kid.st = "none"   -> Out(RErr("ECHILD"), St)
+    [] St.kid.st = "run"    -> Out(R("nochange", 0, "", <<>>), St)
+    [] St.kid.st = "exited" -> Out(R("exited", St.kid.code, "", <<>>), [St EXCEPT !.kid = NoKid])
+    [] OTHER                -> Out(R("signaled", 0, St.kid.sig, <<>>), [St EXCEPT !.kid = NoKid])
+
 Apply(St, c) ==
   CASE c.op = "open"    -> ApOpen(St, c)
     [] c.op = "close"   -> ApClose(St, c)
@@ -532,6 +621,11 @@ Apply(St, c) ==
     [] c.op = "caught"  -> ApCaught(St, c)
     [] c.op = "setrlimit" -> ApSetrlimit(St, c)
     [] c.op = "getrlimit" -> ApGetrlimit(St, c)
+    [] c.op = "pending" -> ApPending(St, c)
+    [] c.op = "fork"    -> ApFork(St, c)
+    [] c.op = "kid"     -> ApKid(St, c)
+    [] c.op = "wait"    -> ApWait(St, c)
+    [] c.op = "exit"    -> Out(RUndef("the process under test exits"), St)
 
 ---------------------------------------------------------------------------
 (* Alphabets of the generator themes.  Every theme keeps the set of calls  *)
@@ -643,6 +737,40 @@ CallsSig(St) ==
   \cup { [op |-> "kill", sig |-> s] : s \in AllSigs \cup {"0"} }
   \cup { [op |-> "caught"] }
 
+\* a call made by the child
+InKid(c) == [op |-> "kid", c |-> c]
+
+\* Signals across fork: the child starts with the parent's actions and mask
+\* and with NO pending signal; what either process does with its signals
+\* afterwards does not touch the other; the end of the child is reported to
+\* the parent by wait and SIGCHLD.
+CallsFork(St) ==
+     { [op |-> "sigaction", sig |-> "USR1", d |-> d] : d \in {"C", "D"} }
+  \cup { [op |-> "sigaction", sig |-> "CHLD", d |-> "C"] }
+  \cup { [op |-> "sigmask", how |-> hw, set |-> {"USR1"}] : hw \in {"ADD", "DEL"} }
+  \cup { [op |-> "kill", sig |-> "USR1"], [op |-> "pending"], [op |-> "caught"], [op |-> "wait"] }
+  \cup (IF St.kid.st = "none" THEN { [op |-> "fork"] } ELSE {})
+  \cup (IF St.kid.st # "run" THEN {} ELSE
+        { InKid(c) : c \in   { [op |-> "sigmask", how |-> hw, set |-> {"USR1"}] : hw \in {"ADD", "DEL"} }
+                          \cup { [op |-> "kill", sig |-> "USR1"], [op |-> "pending"], [op |-> "caught"],
+                                 [op |-> "getsigaction", sig |-> "USR1"], [op |-> "sigaction", sig |-> "USR1", d |-> "C"],
+                                 [op |-> "exit", n |-> 3] } })
+
+\* Descriptors, working directory and umask across fork: the child's
+\* descriptors refer to the SAME open file descriptions (offsets move for
+\* both, closing in one process does not close in the other, FD_CLOEXEC is
+\* copied); cwd and umask are copied and then independent.
+ForkFdCalls(St) ==
+     { COpen(<<"f">>, "R", {}), COpen(<<"f">>, "R", {"E"}) }
+  \cup { [op |-> "read", fd |-> 3, n |-> 2], [op |-> "lseek", fd |-> 3, wh |-> "CUR", off |-> 0],
+         [op |-> "close", fd |-> 3], [op |-> "getfd", fd |-> 3],
+         [op |-> "chdir", path |-> <<"d">>], [op |-> "getcwd"], [op |-> "umask", m |-> 63] }
+CallsForkFd(St) ==
+     ForkFdCalls(St)
+  \cup { [op |-> "wait"] }
+  \cup (IF St.kid.st = "none" THEN { [op |-> "fork"] } ELSE {})
+  \cup (IF St.kid.st # "run" THEN {} ELSE { InKid(c) : c \in ForkFdCalls(St) \cup { [op |-> "exit", n |-> 0] } })
+
 Calls(St) ==
   IF ~St.alive THEN {}
   ELSE CASE Theme = "rw"   -> CallsRW(St)
@@ -653,6 +781,8 @@ Calls(St) ==
          [] Theme = "lim"  -> CallsLim(St)
          [] Theme = "pipe" -> CallsPipe(St)
          [] Theme = "sig"  -> CallsSig(St)
+         [] Theme = "fork" -> CallsFork(St)
+         [] Theme = "forkfd" -> CallsForkFd(St)
 
 ---------------------------------------------------------------------------
 (* Behaviour.  One action; which kinds of call and of result are exercised  *)
@@ -682,19 +812,35 @@ TypeOK ==
   /\ S.cwd \in Universe /\ S.node[S.cwd].k = "dir"
   /\ S.pend \subseteq S.mask                    \* a pending signal is a blocked one
   /\ S.um \in 0 .. 511
+  /\ S.kid.st \in {"none", "run", "exited", "signaled"}
+  /\ S.kid.st = "none" => S.kid = NoKid
+  /\ S.kid.pend \subseteq S.kid.mask
+  /\ S.kid.st # "run" => \A x \in FdRange : S.kid.fds[x].o = 0      \* a terminated process holds no descriptor
 
 \* every descriptor refers to a live open file description and every live
 \* open file description is referred to by a descriptor
 NoDanglingOfd ==
   /\ \A x \in FdRange : S.fds[x].o # 0 => S.ofd[S.fds[x].o].t # "free"
-  /\ \A i \in OfdIds : S.ofd[i].t # "free" => \E x \in FdRange : S.fds[x].o = i
+  /\ \A x \in FdRange : S.kid.fds[x].o # 0 => S.ofd[S.kid.fds[x].o].t # "free"
+  /\ \A i \in OfdIds : S.ofd[i].t # "free" => \E x \in FdRange : S.fds[x].o = i \/ S.kid.fds[x].o = i
 
 \* a file exists only inside an existing directory (creation never orphans)
 TreeClosed == \A p \in Universe \ {<<>>} : S.node[p].k # "none" => S.node[Parent(p)].k = "dir"
 
 \* an ignored signal is never pending (XSH 2.4.3, given that the generator
 \* never raises an ignored signal while it is blocked)
-NoIgnoredPending == \A s \in S.pend : ~Ignored(S, s)
+NoIgnoredPending == /\ \A s \in S.pend : ~Ignored(S, s)
+                    /\ \A s \in S.kid.pend : S.kid.disp[s] = "C" \/ (S.kid.disp[s] = "D" /\ ~DefIgn(s))
+
+\* XSH fork: the child starts without pending signals, with the parent's
+\* mask and actions, descriptors, working directory and umask; the parent
+\* is unchanged (a law of the model: checked on every fork transition)
+ForkLaw ==
+  [][ (Len(h') = Len(h) + 1 /\ h'[Len(h')].c.op = "fork" /\ h'[Len(h')].r.k = "ok")
+        => /\ S'.kid.st = "run" /\ S'.kid.pend = {} /\ S'.kid.caught = {}
+           /\ S'.kid.mask = S.mask /\ S'.kid.disp = S.disp /\ S'.kid.fds = S.fds
+           /\ S'.kid.cwd = S.cwd /\ S'.kid.um = S.um /\ S'.kid.lim = S.lim
+           /\ [S' EXCEPT !.kid = NoKid] = S ]_vars
 
 ---------------------------------------------------------------------------
 (* P2 generator: one line per distinct state - the history that reaches it *)
@@ -726,6 +872,13 @@ PostCalls(St2, c) ==
   \o (IF "fd" \in DOMAIN c /\ IsOpen(St2, c.fd) THEN << [op |-> "lseek", fd |-> c.fd, wh |-> "CUR", off |-> 0] >> ELSE <<>>)
   \* after a call that allocates descriptors, successful or not: the table
   \o (IF c.op \in AllocOps THEN [i \in 1 .. (MaxFd - 2) |-> [op |-> "getfd", fd |-> i + 2]] ELSE <<>>)
+  \* while a child runs: the pending signals, the working directory and the
+  \* offset of descriptor 3 as both processes see them
+  \o (IF St2.kid.st = "run"
+      THEN << [op |-> "pending"], [op |-> "kid", c |-> [op |-> "pending"]], [op |-> "kid", c |-> [op |-> "getcwd"]],
+              [op |-> "lseek", fd |-> 3, wh |-> "CUR", off |-> 0],
+              [op |-> "kid", c |-> [op |-> "lseek", fd |-> 3, wh |-> "CUR", off |-> 0]] >>
+      ELSE <<>>)
 
 Post(St, c) ==
   LET a == Apply(St, c) IN
